@@ -325,7 +325,28 @@ class Run:
         t = time.time()
         self.proof = prove(self.pid)
         self.extra["prove_wall_s"] = round(time.time() - t, 1)
+        if not self.quick:
+            self.step_coqchk()
         return self.proof
+
+    def step_coqchk(self):
+        """thorough tier: re-check the property's compiled theorems (and everything they depend on) with the independent
+        checker and record its axiom summary"""
+        if self.proof is None or self.proof["failed"]:
+            return
+        t = time.time()
+        with BuildLock():
+            rc, out = sh(f"timeout 1500 coqchk -silent -o -Q . TD TD.Props.{self.pid}", cwd=COQ, timeout=1600)
+        m = re.search(r"\* Axioms:(.*?)\n\s*\n\* Constants/Inductives relying on type-in-type:(.*?)\n\s*\n", out, re.S)
+        axioms = " ".join(m.group(1).split()) if m else "could not parse"
+        self.extra["coqchk"] = {"exit": rc, "axioms": axioms, "wall_s": round(time.time() - t, 1)}
+        if rc != 0:
+            self.broken.append("coqchk rejects the compiled development: " + out[-600:])
+        elif m and axioms != "<none>":
+            names = [a for a in re.findall(r"[A-Za-z_][A-Za-z0-9_.']*", axioms)]
+            notok = [a for a in names if a not in ALLOWED_AXIOMS and a.split(".")[-1] not in ALLOWED_AXIOMS]
+            if notok:
+                self.broken.append("coqchk reports non-allowed axioms: " + ", ".join(notok))
 
     def step_driver(self):
         ok, out = build_driver(self.pid)
